@@ -13,6 +13,9 @@ for l in out:
         if opi == first: msgs.append(l)
 i = 0; starts = []
 while i < len(t):
+    if t[i].startswith('!'):
+        i += 1
+        continue
     starts.append(i)
     if t[i].startswith('S '):
         while i < len(t) and t[i] != '.': i += 1
